@@ -43,6 +43,8 @@ Fails(e) ==
     [] e.op = "automata_checker" -> JAutomataChecker(e)
     [] e.op = "reachable"     -> JReachable(e)
     [] e.op = "is_push_pop"   -> JPushPop(e)
+    [] e.op = "fresh"         -> JFresh(e)
+    [] e.op = "idgen"         -> JIdGen(e)
     [] e.op = "ec_trace"      -> JEcTrace(e)
     [] e.op = "hop_trace"     -> JHopTrace(e)
     [] e.op = "iso_trace"     -> JIsoTrace(e)
